@@ -405,6 +405,53 @@ func addFar(a, b Val) (X, bool) {
 	return X{Val: MkFinite(a.Neg, d, exp)}, true
 }
 
+// addFarSticky is addFar for gaps too large to spell out (up to the whole exponent range): the sum keeps
+// enough leading digits for a rounding to prec digits and folds the rest, which is known to be non-zero, into
+// the sticky flag. ok is false when the rounding position is not safely above the smaller addend.
+func addFarSticky(a, b Val, prec uint64) (X, bool) {
+	if a.Form != Finite || b.Form != Finite {
+		return X{}, false
+	}
+	if CmpMag(a, b) < 0 {
+		a, b = b, a
+	}
+	aLow := a.Exp - int64(len(a.Digits))
+	gap := aLow - b.Exp
+	if gap < 1000 || uint64(gap) <= prec+10 {
+		return X{}, false
+	}
+	k := int64(prec) + 4 - int64(len(a.Digits)) // digits kept below a's last digit
+	if k < 2 {
+		k = 2
+	}
+	if k >= gap {
+		return X{}, false
+	}
+	if a.Neg == b.Neg {
+		return X{Val: Val{Form: Finite, Neg: a.Neg, Digits: a.Digits + strings.Repeat("0", int(k)), Exp: a.Exp}, Sticky: true}, true
+	}
+	// |a| - |b| = (A-1) 99...9 (10^len(B) - B): cut inside the run of nines, the rest is non-zero
+	A, _ := new(big.Int).SetString(a.Digits, 10)
+	A.Sub(A, big.NewInt(1))
+	if A.Sign() == 0 {
+		k = int64(prec) + 4
+		if k >= gap {
+			return X{}, false
+		}
+		return X{Val: Val{Form: Finite, Neg: a.Neg, Digits: strings.Repeat("9", int(k)), Exp: aLow}, Sticky: true}, true
+	}
+	as := A.String()
+	exp := a.Exp
+	if len(as) < len(a.Digits) {
+		exp -= int64(len(a.Digits) - len(as))
+		k++
+		if k >= gap {
+			return X{}, false
+		}
+	}
+	return X{Val: Val{Form: Finite, Neg: a.Neg, Digits: as + strings.Repeat("9", int(k)), Exp: exp}, Sticky: true}, true
+}
+
 // SumZeroSign is the IEEE 754-2008 §6.3 sign of an exactly zero sum whose
 // addends have the signs an and bn.
 func SumZeroSign(an, bn bool, mode Mode) bool {
@@ -498,13 +545,34 @@ func Sum(x, y Val, prec uint64, mode Mode) Res {
 	case y.Form == Inf:
 		return Res{V: y}
 	}
-	s := AddX(x, y)
+	s := AddXP(x, y, prec)
 	if s.Form == Zero {
 		s.Neg = SumZeroSign(x.Neg, y.Neg, mode)
 		return Res{V: s.Val}
 	}
 	v, a := Round(s, prec, mode)
 	return Res{V: v, Acc: a}
+}
+
+// farStickyFrom is the gap (in digits) from which Sum uses the sticky form instead of spelling the gap out.
+const farStickyFrom = 1 << 20
+
+// AddXP is AddX for a result that will be rounded to prec digits: exact for ordinary operands, the leading
+// digits plus a sticky flag when one addend lies more than 2^20 digits below the other.
+func AddXP(a, b Val, prec uint64) X {
+	if a.Form == Finite && b.Form == Finite && gapOf(a, b) >= farStickyFrom {
+		if s, ok := addFarSticky(a, b, prec); ok {
+			return s
+		}
+	}
+	return AddX(a, b)
+}
+
+func gapOf(a, b Val) int64 {
+	if CmpMag(a, b) < 0 {
+		a, b = b, a
+	}
+	return a.Exp - int64(len(a.Digits)) - b.Exp
 }
 
 func Diff(x, y Val, prec uint64, mode Mode) Res { return Sum(x, y.Negate(), prec, mode) }
@@ -558,13 +626,25 @@ func Fma(x, y, u Val, prec uint64, mode Mode) Res {
 	} else {
 		p = MulX(x, y).Val
 	}
-	s := AddX(p, u)
+	s := AddXP(p, u, prec)
 	if s.Form == Zero {
 		s.Neg = SumZeroSign(p.Neg, u.Neg, mode)
 		return Res{V: s.Val}
 	}
 	v, a := Round(s, prec, mode)
 	return Res{V: v, Acc: a}
+}
+
+// FmaRangeChecked is x*y+u with the exact product subjected to the exponent range rule before the addition
+// (overflow to an infinity, underflow to a zero): not the fused result, but what an implementation that forms
+// the product as a Decimal first computes. Only differs from Fma when the product's exponent leaves the range.
+func FmaRangeChecked(x, y, u Val, prec uint64, mode Mode) Res {
+	if x.Form != Finite || y.Form != Finite {
+		return Fma(x, y, u, prec, mode)
+	}
+	p := MulX(x, y).Val
+	pr, _ := Round(X{Val: p}, uint64(len(p.Digits)), mode)
+	return Sum(pr, u, prec, mode)
 }
 
 func Sqrt(x Val, prec uint64, mode Mode) Res {
